@@ -189,6 +189,7 @@ func (resp *Response) DecodeProp(values ...interface{}) error {
 		if err := resp.Err(); err != nil {
 			return newPropError(name, err)
 		}
+		found := false
 		for _, propstat := range resp.PropStats {
 			raw := propstat.Prop.Get(name)
 			if raw == nil {
@@ -200,12 +201,15 @@ func (resp *Response) DecodeProp(values ...interface{}) error {
 			if err := raw.Decode(v); err != nil {
 				return newPropError(name, err)
 			}
-			return nil
+			found = true
+			break
 		}
-		return newPropError(name, &HTTPError{
-			Code: http.StatusNotFound,
-			Err:  fmt.Errorf("missing property"),
-		})
+		if !found {
+			return newPropError(name, &HTTPError{
+				Code: http.StatusNotFound,
+				Err:  fmt.Errorf("missing property"),
+			})
+		}
 	}
 
 	return nil
